@@ -719,6 +719,7 @@ func (c *child) runSegment(s segment, lo, hi int) {
 			}
 			return nil
 		})
+		c.drain(s)
 		for i := lo; i < hi; i++ {
 			local := i - s.start
 			rng := c.rng(s.Kind, s.Net, local)
@@ -768,6 +769,7 @@ func (c *child) runSegment(s segment, lo, hi int) {
 		})
 		advEnr := adv.Self().String()
 		hexs := func(b []byte) string { return "0x" + hex.EncodeToString(b) }
+		c.drain(s)
 		for i := lo; i < hi; i++ {
 			local := i - s.start
 			rng := c.rng(s.Kind, s.Net, local)
@@ -1064,6 +1066,47 @@ func (c *child) queueLiveness(s segment) {
 	}
 	c.lastTick.Store(time.Now().UnixNano())
 	c.count("content_queue_markers_consumed", 1)
+}
+
+// drain waits until the node's own earlier requests to the scripted peers have been dealt with. discv5 runs one
+// call per remote node at a time and queues the rest; every hostile PING that announced a higher sequence number
+// made the node queue a record request to its sender (processPing -> RequestENR), each of which takes a response
+// timeout when the sender does not answer it. A request that a later case makes the node send to the same peer
+// waits behind them - that is queueing, not a wedge, and it would be charged to the wrong case. The queue is first
+// in, first out, so one more request per peer returning means everything before it is done. While the backlog
+// shrinks the watchdog is kept quiet, for at most 20 minutes: a queue that never drains is still reported.
+func (c *child) drain(s segment) {
+	ne := c.env.nets[s.Net]
+	t0 := time.Now()
+	var wg sync.WaitGroup
+	for _, adv := range c.env.advs {
+		wg.Add(1)
+		go func(adv *pnode.Adversary) {
+			defer wg.Done()
+			_, _, _ = guard(func() { _, _ = ne.node.P.VerifPing(adv.Self()) })
+		}(adv)
+	}
+	done := make(chan struct{})
+	go func() { wg.Wait(); close(done) }()
+	tick := time.NewTicker(2 * time.Second)
+	defer tick.Stop()
+	for {
+		select {
+		case <-done:
+			ms := time.Since(t0).Milliseconds()
+			c.resMu.Lock()
+			if ms >= c.res.Counters["max_ms_waited_for_the_nodes_own_request_backlog"] {
+				c.res.Counters["max_ms_waited_for_the_nodes_own_request_backlog"] = ms
+			}
+			c.resMu.Unlock()
+			c.lastTick.Store(time.Now().UnixNano())
+			return
+		case <-tick.C:
+			if time.Since(t0) < 20*time.Minute {
+				c.lastTick.Store(time.Now().UnixNano())
+			}
+		}
+	}
 }
 
 // liveness: after a batch of hostile traffic a well-formed PING must still be answered.
